@@ -350,10 +350,8 @@ def r03_3(prog, rep, rid='R03.3'):
         if not I.is_handon(c) or I.handon_state(prog, fi, c) != target:
             continue
         node = smap[id(c)]
-        guarded = any(isinstance(g.nodes[t].ast, ast.Call) and
-                      call_name(g.nodes[t].ast) == 'self._try_allocation'
-                      for t, lab in guards(g, node.id))
-        if guarded:
+        from .c01 import granted_by_try
+        if granted_by_try(fi, g, node):
             continue
         start = loop_slice(g, node.loops[-1])[0] if node.loops else g.entry.id
         ids = [smap[id(n)].id for ff, n in incs_inc]
@@ -756,4 +754,6 @@ SILENT = [
         (_N, "            if self.lfs is not None: self.lfs += slot.lfs\n", "            if self.lfs is not None:\n                self.lfs += slot.lfs\n")]),
     dict(name='rollback via release helper variable', edits=[
         (_N, "            for slot in slots:\n                node = self.nodes[slot.node_index]\n                node.deallocate_slot(slot)\n            self.__last_failed_rr__ = rr", "            for s in slots:\n                self.nodes[s.node_index].deallocate_slot(s)\n            self.__last_failed_rr__ = rr")]),
+    dict(name='placement result tested into a local first', edits=[
+        (_B, "                    if self._try_allocation(task):\n                        # task got scheduled", "                    placed = self._try_allocation(task)\n                    if placed:\n                        # task got scheduled")]),
 ]
